@@ -43,10 +43,11 @@ class Model:
         self.values = {1: b"\x01", 2: b"\x02", 3: b"\x03"}
         self.version = 3
         self.cyc_next = None  # next cyclic round of group 6, or None while it waits for clients
+        self.events6 = (3,)  # events of the cyclic group that have a value
 
     def _canon_(self, now):
         return (tuple((g, tuple(v)) for g, v in sorted(self.subs.items())), tuple(sorted(self.values.items())),
-                None if self.cyc_next is None else self.cyc_next - now)
+                None if self.cyc_next is None else self.cyc_next - now, self.events6)
 
 
 class Sys(e1.TimedSys):
@@ -57,6 +58,7 @@ class Sys(e1.TimedSys):
         self.max_deviations = cfg.get("deviations", 0)
         self.groups = cfg["groups"]
         self.endpoints = cfg["endpoints"]
+        self.one_after_advance = bool(cfg.get("new_event") or cfg.get("inside_cyclic_round"))
 
         class S(svc.SimpleService):
             service_id = self.sid
@@ -101,6 +103,8 @@ class Sys(e1.TimedSys):
             for sset in subsets:
                 acts.append(("notify", g, tuple(sset)))
             acts.append(("set", evs[0]))
+        if self.cfg.get("new_event") and 6 in self.groups and m.events6 == (3,) and not held:
+            acts.append(("set-new", 4))  # an event of the cyclic group gets its first value
         if not held:
             acts += [("bad", "no-endpoint"), ("bad", "two-endpoints"), ("bad", "unknown-eventgroup")]
             if "e1t" in self.endpoints:
@@ -120,7 +124,7 @@ class Sys(e1.TimedSys):
             self.service.client_subscribed(self._subscription(g, [EP[e]]), SRC)
             m.subs[g].append(e)
             if GROUP_EVENTS[g]:
-                self.pending.append(("initial", g, e, GROUP_EVENTS[g], {}))
+                self.pending.append(("initial", g, e, GROUP_EVENTS[g] if g != 6 else m.events6, {}))
             if g == 6 and m.cyc_next is None:
                 m.cyc_next = now + INTERVAL
         elif act[0] == "unsub":
@@ -144,6 +148,11 @@ class Sys(e1.TimedSys):
             self.step_values.setdefault(act[1], set()).add(v)
             g = 5 if act[1] in GROUP_EVENTS[5] else 6
             self.eg[g].values[act[1]] = v
+        elif act[0] == "set-new":
+            m.values[4] = b"\x04"
+            m.events6 = (3, 4)
+            self.new_event_window = True  # rounds / initial notifications on their way may or may not include it
+            self.eg[6].values[4] = b"\x04"
         elif act[0] == "notify":
             _, g, evs = act
             self.eg[g].notify_once(list(evs))
@@ -180,7 +189,11 @@ class Sys(e1.TimedSys):
         now = self.loop.time()
         r = self.loop._clock_resolution
         self.round_due = m.cyc_next is not None and m.cyc_next < now + r
+        if self.round_due and getattr(self, "round_subs0", None) is None:
+            self.round_subs0 = tuple(m.subs[6])  # the subscribers when the cyclic round's timer fires
         self.step_values = {k: {v} for k, v in m.values.items()}
+        if self.loop.idle() and not self.held:
+            self.new_event_window = False
 
     def after_step(self, ev):
         m = self.model
@@ -239,13 +252,27 @@ class Sys(e1.TimedSys):
             # the value at the call itself
             pass
         if self.round_due:
-            base += [(dn(e), tuple(GROUP_EVENTS[6])) for e in m.subs[6]]
-            for evn in GROUP_EVENTS[6]:
+            # 'subscribed at that time': when the round's timer fired, or when the loop is idle again (a subscribe /
+            # unsubscribe call may fall between the timer and the round's datagrams)
+            r0 = [(dn(e), tuple(m.events6)) for e in (self.round_subs0 or ())]
+            r1 = [(dn(e), tuple(m.events6)) for e in m.subs[6]]
+            self.round_subs0 = None
+            if sorted(r0) != sorted(r1):
+                alts = [x + r0 for x in alts] + [x + r1 for x in alts]
+            else:
+                base += r1
+            for evn in m.events6:
                 allowed.setdefault(evn, set()).add(m.values[evn])
                 allowed[evn].update(self.step_values.get(evn, ()))
             m.cyc_next = (m.cyc_next + INTERVAL) if m.subs[6] else None
         self.pending = []
         shape = sorted((d, tuple(e for e, _ in items)) for d, items in got)
+        if getattr(self, "new_event_window", False):
+            # the new event got its value while these datagrams were on their way: with or without it is fine
+            strip = lambda lst: sorted((d, tuple(e for e in evs if e != 4)) for d, evs in lst)  # noqa: E731
+            shape = strip(shape)
+            base = strip(base)
+            alts = [strip(a) for a in alts]
         ok = any(shape == sorted(base + a) for a in alts)
         if not ok:
             exp = sorted(base + alts[0])
@@ -278,11 +305,14 @@ def configs(ctx):
     out.append(("manual-group-3-endpoints", dict(sid=sid, major=major, advs=(None,), groups=(5,), endpoints=("e1", "e2", "e3"),
                                                  deviations=ctx.pick(1, 2), fine=0), CLOSURE))
     out.append(("cyclic-group-2-endpoints", dict(sid=sid, major=major, advs=(None, "half", "next", "next-2r"), groups=(6,),
-                                                 endpoints=("e1", "e2"), deviations=ctx.pick(1, 2), fine=1), CLOSURE))
+                                                 endpoints=("e1", "e2"), deviations=ctx.pick(1, 2), fine=1,
+                                                 inside_cyclic_round=True), CLOSURE))
     out.append(("manual-group-udp-tcp-twin-endpoints", dict(sid=sid, major=major, advs=(None,), groups=(5,),
                                                             endpoints=("e1", "e1t", "e2"), deviations=1, fine=0), CLOSURE))
     out.append(("cyclic-group-udp-tcp-twin-endpoints", dict(sid=sid, major=major, advs=(None, "next"), groups=(6,),
                                                             endpoints=("e1", "e1t"), deviations=0, fine=0), CLOSURE))
+    out.append(("cyclic-group-new-event", dict(sid=sid, major=major, advs=(None, "next"), groups=(6,), endpoints=("e1",),
+                                               deviations=1, fine=0, new_event=True), CLOSURE))
     out.append(("both-groups", dict(sid=sid, major=major, advs=(None, "next"), groups=(5, 6), endpoints=("e1", "e2"),
                                     deviations=ctx.pick(0, 1), fine=0), CLOSURE))
     return out
